@@ -121,6 +121,73 @@ func (e *Engine) enclosedObligations(rules []Enclosed) []*Obligation {
 	return out
 }
 
+// NonBlockingSends: in the listed source files every channel send is a case of a select that has a default arm, so the
+// goroutine running that code (a manager loop) can never wait on the receiver.
+type NonBlockingSends struct {
+	Files []string `json:"files"` // repository-relative file names
+	Why   string   `json:"why"`
+}
+
+func (e *Engine) nonBlockingSendObligations(rules []NonBlockingSends) []*Obligation {
+	var out []*Obligation
+	for _, r := range rules {
+		for _, rel := range r.Files {
+			var keys []string
+			for k, fi := range e.funcs {
+				if fi.Body != nil && strings.HasSuffix(fi.Pkg.Fset.Position(fi.Body.Pos()).Filename, "/"+rel) {
+					keys = append(keys, k)
+				}
+			}
+			sort.Strings(keys)
+			if len(keys) == 0 {
+				out = append(out, &Obligation{Name: "effect:file-loaded(" + rel + ")", Fn: modPath + "/" + rel, Kind: "effect", Desc: "file is loaded for the send scan", Goal: "false", Status: "error", Backend: "ast-scan"})
+			}
+			for _, k := range keys {
+				fi := e.funcs[k]
+				c := &FnCtx{e: e, fi: fi, info: fi.Pkg.TypesInfo}
+				o := &Obligation{Name: "effect:nonblocking-sends", Fn: k, Kind: "effect", Backend: "ast-scan", Goal: "true", Status: "unsat", Pos: c.pos(fi.Body.Pos()),
+					Desc: "effect contract: every channel send in " + shortFn(k) + " is a select case with a default arm (" + r.Why + ")"}
+				guarded := map[*ast.SendStmt]bool{}
+				ast.Inspect(fi.Body, func(n ast.Node) bool {
+					if _, isLit := n.(*ast.FuncLit); isLit && n != ast.Node(fi.Lit) {
+						return false
+					}
+					if sel, ok := n.(*ast.SelectStmt); ok {
+						hasDefault := false
+						for _, cl := range sel.Body.List {
+							if cl.(*ast.CommClause).Comm == nil {
+								hasDefault = true
+							}
+						}
+						if hasDefault {
+							for _, cl := range sel.Body.List {
+								if ss, ok := cl.(*ast.CommClause).Comm.(*ast.SendStmt); ok {
+									guarded[ss] = true
+								}
+							}
+						}
+					}
+					return true
+				})
+				ast.Inspect(fi.Body, func(n ast.Node) bool {
+					if _, isLit := n.(*ast.FuncLit); isLit && n != ast.Node(fi.Lit) {
+						return false
+					}
+					if ss, ok := n.(*ast.SendStmt); ok && !guarded[ss] && o.Status == "unsat" {
+						o.Status = "sat"
+						o.Raw = "a send that can block at " + c.pos(ss.Pos())
+						o.Desc += " — blocking send at " + c.pos(ss.Pos())
+						o.Pos = c.pos(ss.Pos())
+					}
+					return true
+				})
+				out = append(out, o)
+			}
+		}
+	}
+	return out
+}
+
 func callsRecover(body *ast.BlockStmt, info *types.Info) bool {
 	hit := false
 	ast.Inspect(body, func(n ast.Node) bool {
